@@ -1403,11 +1403,11 @@ def eval_pipeline(facts, term, g, source, env, cap=200):
     return val(r)
 
 
-def reach_table_by_length(body, bb, g, lengths=(0, 1, 2, 5)):
+def reach_table_by_length(body, bb, g, lengths=(0, 1, 2, 5), any_len=False):
     """{L: is block bb reached for a word of length L} judged by the dominating facts that mention FreeWord::len / is_empty (all of one word:
     callers use it in loops over one relator); None if no such fact dominates; a value None = a fact that cannot be evaluated"""
     def mentions(y):
-        return isinstance(y, tuple) and y and y[0] == "call" and (y[1].endswith("FreeWord::len") or y[1].endswith("is_empty"))
+        return isinstance(y, tuple) and y and y[0] == "call" and (y[1].endswith("FreeWord::len") or y[1].endswith("is_empty") or (any_len and y[1].endswith("::len")))
     atoms = [atom_norm(a, g) for a in body.facts_at(bb)]
     rel_atoms = []
     for a in atoms:
@@ -1423,7 +1423,7 @@ def reach_table_by_length(body, bb, g, lengths=(0, 1, 2, 5)):
             env = {}
             for y in subterms(holder):
                 if mentions(y):
-                    env[y] = L if y[1].endswith("FreeWord::len") else (1 if L == 0 else 0)
+                    env[y] = L if y[1].endswith("::len") else (1 if L == 0 else 0)
             vals.append(eval_atom_env(a, env))
         table[L] = None if any(v is None for v in vals) else all(vals)
     return table
